@@ -11,7 +11,7 @@ boundaries in text (`interpolate`).
 Correspondence: the Lean `xform` (Genshi.Py.xform) against the real transformers on the same
 trees (wire form of the resulting `ast`), and the Lean model of `interpolation.lex` against the real one."""
 import ast, builtins, copy, json, operator, re, warnings
-from harness import proto, gen_pyexpr as G
+from harness import proto, gen_pyexpr as G, gen_pyeval as CG
 from harness.framework import Result, pmap
 from harness.proto import Atom
 
@@ -1012,6 +1012,114 @@ def compare_model(cases, res):
             res.disagreements.append({'stream': what, 'case': c, 'model': repr(model)[:700], 'real': repr(want)[:700]})
 
 
+# --------------------------------------------------------------------------
+# the concrete Lean evaluator (Model/PyEvalC.lean) against genshi and against CPython
+
+class _Uninline(ast.NodeTransformer):
+    def visit_ListComp(self, node):
+        self.generic_visit(node)
+        return ast.Call(ast.Name('__ref_list', ast.Load()), [ast.GeneratorExp(node.elt, node.generators)], [])
+
+
+def _run_uninlined(ref, tree):
+    new = RefTransformer().visit(copy.deepcopy(tree))
+    new = _Uninline().visit(new)
+    ast.fix_missing_locations(new)
+    code = compile(new, '<reference-uninlined>', 'eval')
+    return eval(code, {'__ref_name': ref.name, '__ref_attr': ref.attr, '__ref_item': ref.item, '__ref_bin': ref.bin,
+                       '__ref_list': list, '__builtins__': {}})
+
+
+def ceval_real(case):
+    """what genshi computes, what the reference (CPython on its own tree + documented lookups) computes, what plain
+    eval computes when no extension was used; each as a canonical outcome (None: not available)"""
+    from genshi.template.eval import Expression
+    src, lookup = case['src'], case['lookup']
+    tree = ast.parse(src.strip(), mode='eval')
+    try:
+        expr = Expression(src, lookup=lookup)
+    except Exception:  # noqa
+        return None
+    ref = Ref(build_data(case['data']), lookup == 'strict')
+    try:
+        want = outcome(lambda: ref.run(tree))
+    except (Unsupported, TooBig):
+        return None
+    # CPython 3.12 inlines list comprehensions; 3.12.1 then resolves some names wrongly (see ASSUMPTIONS).  The same
+    # tree with every list comprehension written as list(<generator expression>) (never inlined, same meaning) must
+    # give the same outcome, else CPython is no reference for this case.
+    ref2 = Ref(build_data(case['data']), lookup == 'strict')
+    try:
+        want2 = outcome(lambda: _run_uninlined(ref2, tree))
+    except (Unsupported, TooBig):
+        return None
+    if CG.norm_outcome(want2) != CG.norm_outcome(want):
+        return 'cpython-inlining-uncertain'
+    got = outcome(lambda: expr.evaluate(build_data(case['data'])))
+    py = None
+    if ref.ext == 0:
+        g = dict(builtins.__dict__)
+        g.update(build_data(case['data']))
+        py = outcome(lambda: eval(compile(tree, '<ref>', 'eval'), g))
+    return {'genshi': CG.norm_outcome(got), 'ref': CG.norm_outcome(want), 'eval': py and CG.norm_outcome(py), 'ext': ref.ext}
+
+
+def compare_ceval(cases, res):
+    """stream `ceval`: the Lean evaluator run (a) with the documented lookup rules on the parsed tree and (b) Python-style
+    on the rewritten tree (globals __data__ / _lookup_*), against Expression.evaluate of the real genshi, against CPython
+    evaluating its own tree with the documented lookups plugged in, and (no extension used) against plain eval()"""
+    lines, meta = [], []
+    for c in cases:
+        try:
+            real = ceval_real(c)
+            tree = ast.parse(c['src'].strip(), mode='eval')
+            wire = G.to_wire(tree.body)
+        except RecursionError:
+            res.count('ceval:recursion-limit')
+            continue
+        if real is None or isinstance(real, str):
+            res.count('ceval:' + (real or 'rejected-or-skipped'))
+            continue
+        dw = CG.data_wire(c['data'])
+        st = c['lookup'] == 'strict'
+        lines.append(proto.line(Atom('C03'), Atom('ceval'), False, st, dw, wire))
+        lines.append(proto.line(Atom('C03'), Atom('ceval'), True, st, dw, wire))
+        meta.append((c, real))
+    answers = proto.run_lines(lines)
+    for k, (c, real) in enumerate(meta):
+        outs = []
+        for ans in answers[2 * k:2 * k + 2]:
+            if ans.startswith('unmodelled'):
+                outs.append(None)
+                continue
+            outs.append(CG.model_outcome(proto.dec(ans)))
+        gs, py = outs
+        res.evaluations += 1
+        if gs is None or py is None:
+            res.count('ceval:unmodelled' + ('-fuel' if 'unmodelled-fuel' in answers[2 * k:2 * k + 2] else ''))
+            if (gs is None) != (py is None):
+                res.count('ceval:unmodelled-one-side')
+            continue
+        res.streams['ceval'] = res.streams.get('ceval', 0) + 1
+        cls = ('value' if gs[0] == 'ok' else 'raises:' + gs[1]) + (':ext' if real['ext'] else '')
+        res.count('ceval:' + cls)
+        for f in c.get('feat', []):
+            res.count('ceval-feat:' + f)
+        if c.get('feat'):
+            res.nontrivial.add('ceval|%s|%s|%s' % (c['lookup'], cls, ','.join(c['feat'])))
+        case = {'kind': 'eval', 'src': c['src'], 'lookup': c['lookup'], 'data': c['data']}
+        if gs != py:
+            res.disagreements.append({'stream': 'ceval-xform', 'case': case, 'model': repr(py)[:500], 'real': 'documented semantics in the model: ' + repr(gs)[:500]})
+        if gs != real['genshi']:
+            res.disagreements.append({'stream': 'ceval-genshi', 'case': case, 'model': repr(gs)[:500], 'real': repr(real['genshi'])[:500]})
+        if gs != real['ref']:
+            res.disagreements.append({'stream': 'ceval-cpython-ref', 'case': case, 'model': repr(gs)[:500], 'real': repr(real['ref'])[:500]})
+        if real['eval'] is not None and real['eval'] == real['ref'] and gs != real['eval']:
+            res.disagreements.append({'stream': 'ceval-cpython-eval', 'case': case, 'model': repr(gs)[:500], 'real': repr(real['eval'])[:500]})
+        if real['eval'] is not None:
+            res.count('ceval:plain-eval-compared')
+
+
 def shard(arg):
     import random, sys, resource
     sys.setrecursionlimit(3000)
@@ -1063,6 +1171,10 @@ def shard(arg):
             res.failures.append(oracle_scope({'kind': 'scope', 'src': c['src']}))
     compare_model(cases, res)
     compare_lookup(gen_lookup_objects(rng, max(100, n // 2)), res)
+    ccases = CG.gen_ceval_cases(rng, max(150, n // 2))
+    if idx == 0:
+        ccases = [{'kind': 'ceval', 'src': s_, 'lookup': lk, 'data': d_, 'feat': ['hand']} for s_, d_ in CG.HAND_CEVAL for lk in ('strict', 'lenient')] + ccases
+    compare_ceval(ccases, res)
     res.samples = [c for c in cases[:3]]
     return res
 
